@@ -570,6 +570,7 @@ func c05Sweep(e *Env) {
 func c05Conn(e *Env) {
 	t := e.T
 	e.maxStep = 400
+	e.TrustWait = true
 	n := t.Range(1, 6)
 	var msgs []c05Msg
 	var stream []byte
